@@ -1,14 +1,45 @@
 """C13 - the shipped API layer is a faithful translation of the shipped TL schema."""
+import glob
 import hashlib
 import json
+import os
 import re
 
 from .. import common as C
 from . import c13m
 from . import tlcommon as T
+from . import tlreg
 from . import tlschema
 
 PROPS = ["theories/Props/C13.v", "theories/Inst/C13i.v"]
+
+
+REPORT_KEYS = ("api_mismatch_ids", "mt_mismatch_ids", "bad_crc_lines", "not_in_schema", "bad_wrappers", "name_mismatch_ids",
+               "ident_mismatch_ids", "const_mismatch_ids", "stray_consts", "mt_ident_info", "dup_reg_ids", "dup_struct_crcs",
+               "iface_mismatch_ids", "unseen_ifaces", "fingerprint", "counts")
+COUNT_NAMES = ("api_definitions", "service_definitions", "service_wire_used", "unparsed_lines", "wrappers", "registered_ids",
+               "enum_constants", "interfaces_seen", "interfaces_declared")
+
+
+def handwritten_crc_types():
+    """independent of the translator: hand-written types of package telegram with a CRC() method"""
+    found = set()
+    for f in sorted(glob.glob(C.REPO + "/telegram/*.go")):
+        b = os.path.basename(f)
+        if b.endswith("_gen.go") or b.endswith("_test.go") or b.startswith("verif_"):
+            continue
+        for m in re.finditer(r"^func \((?:\w+\s+)?\*?(\w+)\) CRC\(\) uint32", open(f).read(), re.M):
+            found.add(m.group(1))
+    return found
+
+
+def definition_lines(path):
+    """independent of the Coq parser: lines of a schema file that define a combinator (`name#id ... = Type;`)"""
+    n = 0
+    for line in open(path, encoding="latin-1"):
+        if re.match(r"^[A-Za-z0-9_.]+#[0-9a-fA-F]+\s.*=\s*\S.*;", line):
+            n += 1
+    return n
 
 
 def parse_report(log):
@@ -17,8 +48,8 @@ def parse_report(log):
     if not m:
         return rep
     txt = m.group(0)
-    for k in ("api_mismatch_ids", "mt_mismatch_ids", "bad_crc_lines", "not_in_schema", "bad_wrappers", "name_mismatch_ids", "counts"):
-        mm = re.search(r'\("%s",\s*\[(.*?)\]\)' % k, txt, re.S)
+    for k in REPORT_KEYS:
+        mm = re.search(r'\(\s*"%s",\s*\[(.*?)\]\)' % k, txt, re.S)
         if mm:
             rep[k] = [int(x) for x in re.findall(r"\d+", mm.group(1))]
     return rep
@@ -27,8 +58,19 @@ def parse_report(log):
 def run(ctx):
     prep = T.prepare(ctx)
     tlschema.write_schema_v()
-    pr = C.coq_props(PROPS)
-    rep = parse_report(pr["log"])
+    # coq/gen/Registry.v is shared with every concurrent run of the TL family (possibly against another tree):
+    # the instance must have been evaluated on the registry THIS run translated
+    want = tlreg.fingerprint(prep["reg"])
+    for attempt in range(5):
+        pr = C.coq_props(PROPS)
+        rep = parse_report(pr["log"])
+        if rep.get("fingerprint") == [want] or ("fingerprint" not in rep and attempt >= 1):
+            break
+        C.log("C13: coq/gen/Registry.v was rewritten by another run; regenerating (attempt %d)" % (attempt + 1))
+        tlreg.write_registry_v(prep["reg"])
+        tlschema.write_schema_v()
+    else:
+        raise C.BuildError("coq/gen/Registry.v keeps being rewritten by concurrent runs")
     ids = T.schema_ids()
     names = prep["names"]
     by_crc = {}
@@ -40,6 +82,21 @@ def run(ctx):
     def describe(crc):
         ss = by_crc.get(crc, [])
         return "; ".join("%s{%s}" % (s["name"], ", ".join("%s %s %s" % f for f in s["fields"])) for s in ss) or ("registered as " + reg_name.get(crc, "nothing"))
+
+    cs = tlreg.parse_consts(tlreg.consts_path(prep["reg"]))
+    consts_by_value = {}
+    for (t, n, v) in cs["consts"]:
+        consts_by_value.setdefault(v, []).append("%s %s" % (t, n))
+    iface_name = dict(cs["rifaces"])
+
+    def go_ident(crc):
+        k = reg_name.get(crc, "")
+        if k.startswith("s"):
+            return names.get(int(k[1:]), k)
+        if k.startswith("e"):
+            return "; ".join(consts_by_value.get(crc, [])) or "no constant with this value"
+        ss = by_crc.get(crc, [])
+        return "; ".join(x["name"] for x in ss) or "?"
 
     explained = set()
     for crc in rep.get("api_mismatch_ids", []) + rep.get("mt_mismatch_ids", []):
@@ -68,6 +125,73 @@ def run(ctx):
                     "hand-written wrapper %s does not carry the id / layout of its schema line: %s" % (names.get(tid, tid), describe_tid(prep, tid)),
                     {"go_type": describe_tid(prep, tid)})
         explained.add("theories/Inst/C13i.v")
+    for crc in rep.get("ident_mismatch_ids", []):
+        line = ids.get(crc, ("?", "?"))
+        C.violation(ctx, "ident:%08x" % crc,
+                    "schema definition `%s` (id %08x) is represented by the Go type %s, whose name is not the schema name (CamelCase, optional Obj / Params suffix): "
+                    "the id or the type name belongs to another definition" % (line[1][:200], crc, go_ident(crc)),
+                    {"schema_line": line[1], "schema_name": line[0], "go_identifier": go_ident(crc), "constructor_id": "%08x" % crc})
+        explained.add("theories/Inst/C13i.v")
+    for crc in rep.get("const_mismatch_ids", []):
+        line = ids.get(crc, ("?", "?"))
+        C.violation(ctx, "const:%08x" % crc,
+                    "schema definition `%s` (id %08x): the Go source gives this value to the enum constant(s) [%s]; no constant named after %s carries it alone"
+                    % (line[1][:200], crc, go_ident(crc), line[0]),
+                    {"schema_line": line[1], "schema_name": line[0], "go_identifier": go_ident(crc), "constructor_id": "%08x" % crc})
+        explained.add("theories/Inst/C13i.v")
+    for v in rep.get("stray_consts", []):
+        C.violation(ctx, "stray-const:%08x" % v,
+                    "enum constant %s has the value %08x, which is the id of no constructor of the API schema" % ("; ".join(consts_by_value.get(v, ["?"])), v),
+                    {"go_identifier": consts_by_value.get(v, []), "value": "%08x" % v})
+        explained.add("theories/Inst/C13i.v")
+    for crc in rep.get("dup_reg_ids", []):
+        C.violation(ctx, "registered-twice:%08x" % crc, "constructor id %08x occurs twice in the registry" % crc, {"constructor_id": "%08x" % crc})
+        explained.add("theories/Inst/C13i.v")
+    for crc in rep.get("dup_struct_crcs", []):
+        C.violation(ctx, "two-types:%08x" % crc,
+                    "constructor id %08x is returned by CRC() of more than one Go type: %s" % (crc, "; ".join(x["name"] for x in by_crc.get(crc, []))),
+                    {"constructor_id": "%08x" % crc, "go_types": [x["name"] for x in by_crc.get(crc, [])]})
+        explained.add("theories/Inst/C13i.v")
+    for crc in rep.get("iface_mismatch_ids", []):
+        line = ids.get(crc, ("?", "?"))
+        k = reg_name.get(crc, "")
+        impl = [iface_name.get(i, str(i)) for i in cs["rimpl"].get(int(k[1:]), (None, []))[1]] if k.startswith("s") else []
+        result = line[1].rstrip(";").split("=")[-1].strip()
+        C.violation(ctx, "iface:%08x" % crc,
+                    "constructor `%s` (id %08x) has result type %s, but the registered Go type %s implements %s: it must implement tl.Object and exactly the "
+                    "interface generated for %s (none if the type has a single constructor)" % (line[1][:200], crc, result, go_ident(crc), impl or "nothing", result),
+                    {"schema_line": line[1], "result_type": result, "go_identifier": go_ident(crc), "implements": impl, "constructor_id": "%08x" % crc})
+        explained.add("theories/Inst/C13i.v")
+    if rep.get("unseen_ifaces"):
+        seen = {tlreg.bare(n) for (_, n) in cs["rifaces"]}
+        for (n, _) in cs["srcifaces"]:
+            if n not in seen:
+                C.violation(ctx, "iface-unseen:%s" % n,
+                            "interface %s is declared in package telegram but is the type of no struct field and of no parameter or result of a Client method: "
+                            "membership of constructors in it cannot be observed" % n, {"go_identifier": n, "no_failing_input": True})
+        explained.add("theories/Inst/C13i.v")
+
+    # the translators and the Coq parser are cross-checked against independent counts (a translator that
+    # finds no wrapper, or a parser that drops lines, would make the theorems above say less than they seem to)
+    counts = dict(zip(COUNT_NAMES, rep.get("counts", [])))
+    hw = handwritten_crc_types()
+    tw = {tlreg.bare(names[t]) for t in tlreg.wrapper_tids(prep["structs"])}
+    if pr["log"] and rep and (hw != tw or counts.get("wrappers") != len(hw)):
+        C.violation(ctx, "wrappers:translator-disagrees",
+                    "hand-written types with a CRC() method in telegram/*.go (source scan): %s; wrappers selected by the registry translator: %s (%s in the Coq instance)"
+                    % (sorted(hw), sorted(tw), counts.get("wrappers")),
+                    {"no_failing_input": True, "source_scan": sorted(hw), "translator": sorted(tw), "coq_count": counts.get("wrappers")})
+    indep = {"api_definitions": definition_lines(T.schema_paths()[0]), "service_definitions": definition_lines(T.schema_paths()[1])}
+    if rep:
+        for k, v in indep.items():
+            if counts.get(k, 0) <= 0 or counts.get(k) != v:
+                C.violation(ctx, "schema-count:" + k,
+                            "%s: the Coq parser found %s definitions, an independent count of `name#id ... = Type;` lines finds %d" % (k, counts.get(k), v),
+                            {"no_failing_input": True, "coq_count": counts.get(k), "independent_count": v})
+        if counts.get("service_wire_used") != len(T.WIRE_USED):
+            C.violation(ctx, "schema-count:service_wire_used", "wire-used service definitions found: %s of %d" % (counts.get("service_wire_used"), len(T.WIRE_USED)),
+                        {"no_failing_input": True})
+
     # a failed obligation that the report above does not explain is reported on its own
     for fl in pr["failed"]:
         if fl["file"] in explained:
@@ -116,13 +240,19 @@ def run(ctx):
     mcov = c13m.stage(ctx)   # end-to-end half against the in-process server
     cov = C.proof_coverage(
         pr, "make -f Makefile.coq theories/Props/C13.vo theories/Inst/C13i.vo (coqc 8.16.1) in /verif/coq",
-        T.TRUSTED_TL + ["schema-embed translator lib/props/tlschema.py (verbatim copy of the .tl files into coq/gen/SchemaText.v; parsed inside Coq)"],
+        T.TRUSTED_TL + ["constant/interface translator harness/root/cmd/tl/consts.go (go/parser over the source of package telegram for typed integer constants and declared "
+                        "interfaces; reflection over struct fields and *telegram.Client method signatures for interface membership), cross-checked against the registry translator where they overlap",
+                        "schema-embed translator lib/props/tlschema.py (verbatim copy of the .tl files into coq/gen/SchemaText.v; parsed inside Coq)"],
         {"evaluations": evals, "distinct_nontrivial": len(nontrivial), "programs": len(ids),
          "rule": "the matcher TL/Match.v is evaluated by the Coq kernel on (registry regenerated from the tree) x (schema text of the tree): every definition of api_latest.tl and every "
                  "wire-used definition of mtproto.tl against its registered type (id, CRC-32 of the canonical line, field order, type, conditional bit, flags position), every registered id "
-                 "against the schemas, the hand-written wrappers against their lines; plus values of every schema-defined constructor marshalled and compared with the schema-defined bytes. "
+                 "against the schemas, the hand-written wrappers against their lines; Go identifiers (struct type names by reflection, enum constant names from the Go source) against "
+                 "schema names; ids registered once and carried by one type; every constructor's struct implements tl.Object and exactly the interface of its result type "
+                 "(interfaces found through struct fields and the signatures of *telegram.Client's methods); translator and parser counts against independent counts; plus values of every schema-defined constructor marshalled and compared with the schema-defined bytes. "
                  "non-trivial = distinct successfully encoded values",
          "samples": samples, "matcher_report": rep, "disagreements_checked": disagreements,
+         "matcher_counts": counts, "independent_counts": dict(indep, wrappers=sorted(hw)),
+         "service_layer_identifiers_differing_from_schema_names (information)": ["%08x %s -> %s" % (k, ids.get(k, ("?",))[0], go_ident(k)) for k in rep.get("mt_ident_info", [])],
          "schema_definitions_exercised_by_values": len(defs_seen), "schema_definitions_total": len(ids),
          "generated_client_methods": "covered by the end-to-end run against the in-process server (see notes)",
          "projection": "descriptor agreement (boolean, with reasons); bytes"})
